@@ -48,7 +48,8 @@ RULE = ("Random: Hypothesis specs of annotated records (vlib/c10_records.record_
         "neighbourhoods overlapping (candidates over consecutive numbers such as 9|10), optionally 10-13 subregions, so "
         "that protocluster/candidate/subregion/region numbers reach two digits. E-values and scores of domains, sec_met "
         "and NRPS_PKS entries come from a mixture with 0.0, denormals, 1.0, >1, negative and whole-number scores, and "
-        "'no value'. distinct = sha1 of the spec.")
+        "'no value'. Multi-part misc features (1 in 2) and genes (1 in 4) carry the operator order(...) instead of "
+        "join(...). distinct = sha1 of the spec.")
 ASSUMPTIONS = [
     "Biopython's GenBank writer/parser is the trusted base: qualifier values are short words, so line wrapping "
     "(Biopython's business) cannot alter them; headers are complete so Biopython's defaults do not differ between writes",
@@ -587,7 +588,7 @@ def sig_gene_function_split(sub, spec, clause, detail) -> bool:
 def _prepeptide_rebuilt_class(spec: dict) -> bool:
     for gene in spec["genes"]:
         if gene.get("prepeptide") and (gene["loc"]["strand"] == -1 or any(gene.get("fuzzy") or ())
-                                       or rec.gen.is_span(gene["loc"])
+                                       or rec.gen.is_span(gene["loc"]) or gene["loc"].get("operator") == "order"
                                        or rec.loc_len(rec.shifted(gene["loc"], gene.get("codon_start", 1))) % 3):
             return True
     return False
@@ -595,7 +596,7 @@ def _prepeptide_rebuilt_class(spec: dict) -> bool:
 
 def sig_prepeptide_location_rebuilt(sub, spec, clause, detail) -> bool:
     """ the prepeptide's own location is not stored but rebuilt from leader+core+tail: reverse strand -> compound,
-        incomplete last codon dropped, partial-end markers lost """
+        incomplete last codon dropped, partial-end markers lost, order(...) becomes join(...) """
     if not _prepeptide_rebuilt_class(spec):
         return False
     if _route_clause(clause, "structure") and detail.get("section") == "prepeptides":
@@ -702,6 +703,18 @@ def sig_pfam_empty_go(sub, spec, clause, detail) -> bool:
                     and item["second"] == [] for item in detail["diff"]))
 
 
+def sig_order_operator_lost_by_codon_start(sub, spec, clause, detail) -> bool:
+    """ a multi-part gene written with order(...) and codon_start 2/3: the frameshift rebuilds the compound location
+        without its operator, so the gene is held and written as join(...) """
+    if clause != "input_gene_location":
+        return False
+    gene = next((g for g in spec["genes"] if g["name"] == detail.get("gene")), None)
+    if gene is None or gene["loc"].get("operator") != "order" or gene.get("codon_start", 1) == 1:
+        return False
+    want, got = detail["want"], detail["got"]
+    return want[1] == got[1] and want[0].startswith("order{") and got[0] == "join{" + want[0][len("order{"):]
+
+
 SIGNATURES = {
     "equal_sort_key": sig_equal_sort_key,
     "order_conflict": sig_order_conflict,
@@ -713,6 +726,7 @@ SIGNATURES = {
     "long_unbroken_value": sig_long_unbroken_value,
     "pfam_empty_go": sig_pfam_empty_go,
     "candidate_wrap_point_linear": sig_candidate_wrap_point_linear,
+    "order_operator_lost_by_codon_start": sig_order_operator_lost_by_codon_start,
 }
 
 
